@@ -44,7 +44,11 @@ RULE = (
     "CheckBox, RadioButton) clipped by Padding(width='clip', 5 alignments, with/without left/right) at 11 widths from 1 to 40 and by "
     "Overlay(width='pack', 5 alignments) at 12 box sizes, rendered with focus, judged by the ordinary clauses plus the cursor-cell clause; "
     "(phase 5) ScrollBar (left/right, 1-2 columns) around a Scrollable scrolled to 16 (quick) / 42 (thorough) positions from 0 to beyond the "
-    "end over texts of equal words, at 10 box sizes around the word length (the text wraps differently at maxcol and maxcol - bar width)."
+    "end over texts of equal words, at 10 box sizes around the word length (the text wraps differently at maxcol and maxcol - bar width); "
+    "(phase 6) LineBox around FIXED-only / BOX+FIXED / FLOW+FIXED widgets; (phase 7) fill strings of 1-2 (quick) / 1-3 (thorough) units "
+    "from ASCII, narrow multi-byte or DEC line drawing, precomposed and combining accents, a double-width character (never first), per "
+    "encoding, in SolidFill, Divider, LineBox line characters and ScrollBar thumb / trough; (phase 8) Pile and Columns with weight 0, "
+    "weights 1000 and 0.5 and given 0 in flow / box / fixed flavours, alone and under ListBox / Filler / LineBox / Columns parents."
 )
 ASSUMES = [
     "directed phase 4 only (a FIXED widget with a cursor clipped by Padding(width='clip') / Overlay(width='pack')): the character under the widget's own cursor is unique in its text, so when that character is visible in the clipping parent's canvas the canvas cursor, if present, must be on that cell; 'cursor outside although its cell is visible' is the C01 cursor clause for the visible part (kept apart from the known 'cursor left outside after its cell was clipped away' lines), 'cursor on another cell' goes one step beyond the statement and is reported under its own signature",
@@ -70,6 +74,8 @@ REQUIRE = {
     "clause_cursor_inside": 300,
     "clause_clip_cursor_cell_visible": 300,
     "directed_scrolled_bar_trees": 100,
+    "directed_fill_string_trees": 100,
+    "directed_odd_option_trees": 40,
     "skipped_invalid": 1,
     "directed_control_text_trees": 50,
     "mode:utf8": 100,
@@ -711,6 +717,88 @@ def linebox_fixed_cases():
                 yield {"t": "LineBox", "title": title, "title_align": "center", "off": off, "c": [child]}
 
 
+# ---------------------------------------------------------------- directed phase 7: multi-character fill strings
+
+
+def fill_strings(mode, maxlen):
+    """strings of 1..maxlen units whose first screen column is one narrow character (what SolidCanvas requires), from
+    characters that are legal in the encoding: ASCII, narrow multi-byte (utf8) / DEC line drawing, precomposed and
+    combining accents (utf8), a double-width character (never first)"""
+    units = {"utf8": ["x", "─", "é", "é", "漢"], "wide": ["x", "─", "▒", "漢"], "narrow": ["x", "─", "▒"]}[mode]
+    out = []
+
+    def rec(prefix):
+        if prefix:
+            out.append("".join(prefix))
+        if len(prefix) < maxlen:
+            for u in units:
+                if not prefix and u == "漢":
+                    continue
+                rec([*prefix, u])
+
+    rec([])
+    return out
+
+
+def fill_cases(mode, maxlen):
+    """every place a user-supplied fill string reaches a SolidCanvas"""
+    txt = {"t": "Text", "text": "ab", "align": "left", "wrap": "space"}
+    for s in fill_strings(mode, maxlen):
+        yield {"t": "SolidFill", "ch": s}
+        yield {"t": "Divider", "ch": s, "top": 0, "bottom": 1}
+        yield {"t": "LineBox", "title": "", "title_align": "center", "off": [], "lines": {"tline": s, "bline": s, "lline": s, "rline": s}, "c": [txt]}
+        inner = {"t": "Scrollable", "c": [{"t": "Text", "text": "a b c d e f g h", "align": "left", "wrap": "space"}], "scrollpos": 1}
+        yield {"t": "ScrollBar", "thumb": s, "trough": s, "side": "right", "width": 2, "c": [inner]}
+
+
+# ---------------------------------------------------------------- directed phase 8: unusual weights / given sizes
+
+
+def odd_option_cases():
+    """Pile and Columns with weight 0, huge and fractional weights and given 0, in flow / box / fixed flavours, alone and
+    under ListBox / Filler / LineBox / Columns parents"""
+    t2 = {"t": "Text", "text": "ab\ncd", "align": "left", "wrap": "space"}
+    t1 = {"t": "Text", "text": "x", "align": "left", "wrap": "space"}
+    sf = {"t": "SolidFill", "ch": "#"}
+    sg = {"t": "SolidFill", "ch": "."}
+
+    def pile(items):
+        return {"t": "Pile", "items": [[k, a] for k, a, _c in items], "focus": None, "c": [c for _k, _a, c in items]}
+
+    def cols(items, div=1, box=()):
+        return {"t": "Columns", "items": [[k, a] for k, a, _c in items], "focus": None, "dividechars": div, "min_width": 1, "box_columns": list(box), "c": [c for _k, _a, c in items]}
+
+    bases = [
+        pile([("weight", 0, t2), ("pack", None, t1)]),
+        pile([("weight", 0, t2), ("weight", 1, t1)]),
+        pile([("weight", 1, t1), ("weight", 0, t2), ("weight", 2, t1)]),
+        pile([("weight", 1000, t2), ("weight", 0.5, t1)]),
+        pile([("given", 0, sf), ("pack", None, t2)]),
+        pile([("weight", 0, sf), ("weight", 1, sg)]),
+        pile([("weight", 1000, sf), ("weight", 0.5, sg)]),
+        pile([("given", 0, sf), ("weight", 1, sg)]),
+        pile([("weight", 0, sf), ("pack", None, t2), ("weight", 2, sg)]),
+        pile([("pack", None, t2), ("weight", 0, t1)]),
+        cols([("weight", 0, t2), ("weight", 1, t1)]),
+        cols([("weight", 1, t1), ("weight", 0, t2), ("weight", 2, t1)]),
+        cols([("weight", 1000, t2), ("weight", 0.5, t1)]),
+        cols([("given", 0, t2), ("weight", 1, t1)]),
+        cols([("weight", 0, sf), ("weight", 1, sg)]),
+        cols([("weight", 1000, sf), ("weight", 0.5, sg)], div=0),
+        cols([("given", 0, sf), ("weight", 1, sg)]),
+        cols([("weight", 0, t2), ("pack", None, t1)]),
+        cols([("pack", None, t1), ("weight", 0, t2), ("pack", None, t2)]),
+    ]
+    for b in bases:
+        yield b
+        kinds = T.kinds_of(b)
+        if "flow" in kinds:
+            yield {"t": "ListBox", "walker": "SimpleListWalker", "focus": None, "c": [t1, b, t1]}
+            yield {"t": "Filler", "valign": "top", "top": 0, "bottom": 0, "min_height": None, "height": "pack", "c": [b]}
+            yield cols([("weight", 1, b), ("weight", 1, t1)], div=0)
+        yield {"t": "LineBox", "title": "", "title_align": "center", "off": [], "c": [b]}
+
+
 def drive_tree(env, recipe, mode, sizes_for, seen_prekeys, max_per_prekey):
     """all sizing modes x sizes x focus for one recipe"""
     ctx = env.ctx
@@ -904,6 +992,24 @@ def run(ctx):
             finally:
                 INTERNAL_WARNINGS.clear()
             ctx.count("directed_linebox_fixed_trees")
+        # 7. directed: multi-character fill strings wherever a user string reaches a SolidCanvas
+        small = {"box": [(1, 1), (2, 1), (5, 2), (13, 3)], "flow": [(1,), (2,), (5,), (13,)], "fixed": [()]}
+        j = 0
+        for mode in T.ENCODINGS:
+            for recipe in fill_cases(mode, ctx.pick(2, 3)):
+                j += 1
+                if not ctx.mine(j):
+                    continue
+                drive_tree(env, recipe, mode, (lambda smode: small[smode]) if ctx.quick else (lambda smode: SIZES[smode]), seen_prekeys, max_per_prekey)
+                ctx.count("directed_fill_string_trees")
+        # 8. directed: weight 0 / huge / fractional weights and given 0 in Pile and Columns, alone and under parents
+        j = 0
+        for recipe in odd_option_cases():
+            j += 1
+            if not ctx.mine(j):
+                continue
+            drive_tree(env, recipe, "utf8", lambda smode: SIZES[smode] if smode != "box" else small["box"] + [(8, 8), (40, 13)], seen_prekeys, max_per_prekey)
+            ctx.count("directed_odd_option_trees")
     finally:
         env.m1.uninstall()
         urwid.util.set_encoding(old_enc)
